@@ -133,7 +133,7 @@ def histogram2d_case(seed):
     numba.set_num_threads(1)  # semantics of histogram2d; schedule independence is checked on the kernel
     rng = np.random.default_rng(seed)
     n = int(rng.integers(1, 300))
-    kind = seed % 6
+    kind = seed % 9
     x = rng.uniform(1.0, 100.0, n)
     y = rng.uniform(-5.0, 5.0, n)
     if kind == 1:
@@ -151,6 +151,11 @@ def histogram2d_case(seed):
     if kind == 5:  # limits given as quantities in another unit of the same dimension
         kw = dict(xmin=1000.0 * osyris.units("cm"), xmax=0.06 * osyris.units("km"), ymin=-2.0 * osyris.units("s"),
                   ymax=2.5 * osyris.units("s"))
+    partial = None
+    if kind in (6, 7, 8):
+        # only some of the four limits are given: they are used as given, the automatic ones still enclose the data
+        partial = [{"xmax": 150.0, "ymin": -7.0}, {"ymax": 2.5}, {"xmin": 20.0, "xmax": 70.0, "ymin": -9.0}][kind - 6]
+        kw = dict(partial)
     out = histogram2d(xa, ya, Layer(wa, operation="sum"), Layer(wa, operation="mean"), resolution=res, plot=False, logx=logx, **kw)
     out0 = histogram2d(xa, ya, resolution=res, plot=False, logx=logx, **kw)
     xs = np.log10(x) if logx else x
@@ -165,6 +170,21 @@ def histogram2d_case(seed):
     rx, ry = rng_of(out.x), rng_of(out.y)
     if rx is None or ry is None:
         return None
+    if partial is not None:
+        got_rng = {"xmin": rx[0], "xmax": rx[1], "ymin": ry[0], "ymax": ry[1]}
+        for k, v in partial.items():
+            if not math.isclose(got_rng[k], v, rel_tol=1e-9, abs_tol=1e-9):
+                return {"what": "%s=%s was given but the histogram range has %s=%.6g" % (k, v, k, got_rng[k]),
+                        "input": {"seed": seed, "given": partial}}
+        inside = fin.copy()
+        for k, v in partial.items():
+            c = xs if k[0] == "x" else y
+            inside &= (c < v) if k.endswith("max") else (c >= v)
+        total = int(np.ma.filled(out0.layers[0]["data"], 0.0).sum())
+        on_edge = int(sum(np.isclose((xs if k[0] == "x" else y)[fin], v).sum() for k, v in partial.items()))
+        if on_edge == 0 and total != int(inside.sum()):
+            return {"what": "limits %s given, the others automatic: %d points binned, %d lie inside the given limits" % (partial, total, inside.sum()),
+                    "input": {"seed": seed, "given": partial}}
     if logx:
         # centres of log-spaced bins are arithmetic means of the edges: the range cannot be read back
         # from them; check conservation and mask consistency only
@@ -195,7 +215,7 @@ def histogram2d_case(seed):
             em = np.where(ec > 0, eo[1] / np.maximum(ec, 1), 0.0)
         if not np.allclose(np.ma.filled(m_layer, 0.0), em):
             return {"what": "mean layer differs", "input": {"seed": seed}}
-    if not explicit and near == 0 and int(got_counts.sum()) != int(fin.sum()):
+    if not explicit and partial is None and near == 0 and int(got_counts.sum()) != int(fin.sum()):
         return {"what": "automatic limits lose points: %d binned of %d finite (kind %d)" % (got_counts.sum(), fin.sum(), kind),
                 "input": {"seed": seed}}
     if not np.array_equal(xa.values, x, equal_nan=True) or not np.array_equal(ya.values, y, equal_nan=True):
